@@ -175,7 +175,7 @@ enum OpKind : uint8_t {
   OP_PATTERN = 6, // sub = ic | ptype<<1 | itype<<2 ; args: 9 pattern fields, 9 input fields
   OP_ORIGIN = 7,  // get_origin of the current object (blob: -> nested parse)
   OP_LIMIT = 8,   // args: decimal value  -> ada::set_max_input_length (administrator thread)
-  OP_CAPI = 9,    // sub = 0 url handle (args: input, base|none, host value|none), 1 idna (args: input), 2 search params (args: init, key, value)
+  OP_CAPI = 9,    // sub = 0 url handle (args: input, base|none, host value|none), 1 idna (args: input), 2 search params (args: init, key, value), 3 ada_parse_with_base alone (args: input, base)
   OP_KINDS
 };
 static const char* const kOpKindName[] = {"parse", "set",  "clear",   "canparse",
@@ -617,6 +617,12 @@ inline std::string exec_capi(const Op& op) {
   auto has = [&](size_t k) { return k < op.args.size() && op.args[k].has_value(); };
   auto sv = [](ada_string s) { return s.data ? std::string(s.data, s.length) : std::string("<null>"); };
   std::string o;
+  if (op.sub == 3) {  // ONE library call (limit races: a compound operation could legitimately see several values)
+    ada_url u = ada_parse_with_base(a(0).data(), a(0).size(), a(1).data(), a(1).size());
+    o = ada_is_valid(u) ? "valid|" + sv(ada_get_href(u)) : std::string("invalid|");
+    ada_free(u);
+    return o;
+  }
   switch (op.sub % 3) {
     case 0: {
       ada_url u = has(1) ? ada_parse_with_base(a(0).data(), a(0).size(), a(1).data(), a(1).size()) : ada_parse(a(0).data(), a(0).size());
